@@ -73,6 +73,9 @@ class MediaSegment(DashElement):
                                  period_availability_start: datetime.datetime,
                                  presentationTimeOffset: int,
                                  timescale: int) -> None:
+        if period_availability_start is None:
+            # MPD@availabilityStartTime is missing, which the manifest reports
+            return
         decode_time = self.expected_decode_time
         if decode_time is None:
             decode_time = (
